@@ -1,11 +1,11 @@
-\* PROPOSED repairs "persist" and "onchain" on top of the code (Fixes = Intended): trees T4i, 2 restarts: all properties hold
+\* PROPOSED repairs "persist" and "onchain" (Fixes = Intended): tree T4j, 2 restarts: all properties hold (compare MC_DposLib_stale2.cfg)
 SPECIFICATION Spec
 CONSTANTS
   N = 4
   Byz <- Byz3
   Nodes <- Obs1
-  Blk0s <- T4iExec
-  MaxBlocks = 12
+  Blk0s <- T4jExec
+  MaxBlocks = 7
   MaxRestarts = 2
   ByzMode = "branch"
   ByzRanges <- R123
